@@ -5,6 +5,7 @@ package main
 import (
 	"fmt"
 	"math/big"
+	"sort"
 	"strings"
 
 	hc "verif/hcommon"
@@ -419,6 +420,46 @@ func runC15(c *hc.Ctx) error {
 					} else {
 						buf.add(fmt.Sprintf("CornerCase %s %d %d %d %d None", s.coq, id, flip, tl.x, tl.y), in)
 					}
+				}
+			}
+		}
+	}
+	// the axis order of every built-in set is decided by its CRS: the (informative) orderedAxes of the document must
+	// not matter — swapped, misspelt or absent, every answer stays the same
+	for _, s := range sets {
+		if s.name == "SomethingWithBottomLeftAndLatLonAndDoubleHeight" {
+			continue
+		}
+		ids := make([]int, 0, len(s.set.TileMatrices))
+		for id, tm := range s.set.TileMatrices {
+			if id >= 0 && len(tm.VariableMatrixWidths) == 0 {
+				ids = append(ids, id)
+			}
+		}
+		sort.Ints(ids)
+		if len(ids) == 0 {
+			continue
+		}
+		probe := []int{ids[0], ids[len(ids)/2], ids[len(ids)-1]}
+		variants := map[string][]string{"absent": nil, "unknown names": {"foo", "bar"}}
+		if len(s.set.OrderedAxes) == 2 {
+			variants["swapped"] = []string{s.set.OrderedAxes[1], s.set.OrderedAxes[0]}
+		}
+		for vname, axes := range variants {
+			alt := s.set
+			alt.OrderedAxes = axes
+			orig := s.set
+			for _, id := range probe {
+				c.Sum.Evaluations++
+				c.Count("orderedAxes altered (CRS known)")
+				p0, ok0, pan0 := callToNative(&orig, id, 0, 0)
+				p1, ok1, pan1 := callToNative(&alt, id, 0, 0)
+				bl0, tr0, e0, bp0 := callBBox(&orig, id)
+				bl1, tr1, e1, bp1 := callBBox(&alt, id)
+				in := map[string]any{"set": s.name, "matrix": id, "ordered_axes_given": axes, "ordered_axes_of_the_document": s.set.OrderedAxes}
+				if pan0 != pan1 || ok0 != ok1 || p0 != p1 || bp0 != bp1 || (e0 == nil) != (e1 == nil) || bl0 != bl1 || tr0 != tr1 {
+					vs.add(hc.Violation{What: "the x,y order of a set with a known CRS depends on the informative orderedAxes (" + vname + ")", Input: in,
+						Observed: map[string]any{"to_native_0_0": p1, "bbox": []geom.Point{bl1, tr1}}, Expected: map[string]any{"to_native_0_0": p0, "bbox": []geom.Point{bl0, tr0}}})
 				}
 			}
 		}
